@@ -90,6 +90,15 @@ func (g *concGen) writes(n int) []W {
 		if d.Merge != "" && d.Merge != "affine" && (d.Kind == "int" || d.Kind == "str") && g.rnd.Float64() < g.p.PMerge {
 			k = "mrg"
 		}
+		if d.Merge == "sat" || d.Merge == "replace" {
+			// values near the fixed points of the merge function
+			if k == "mrg" {
+				ws = append(ws, W{d.Name, k, []int{0, 1, 2, 8, 9}[g.rnd.Intn(5)]})
+			} else {
+				ws = append(ws, W{d.Name, k, []int{0, 7, 8, 9}[g.rnd.Intn(4)]})
+			}
+			continue
+		}
 		if d.Merge == "affine" && g.rnd.Float64() < g.p.PMerge/2 {
 			k = "mrg"
 		}
@@ -383,7 +392,7 @@ func ConcProfileFor(name string, seed int64) ConcProfile {
 		p.Mode, p.Schedules, p.MaxBody = "dfs", 400, 2
 		p.Prologue = []string{"", "block1"}[r.Intn(2)]
 	case "c09": // concurrent merges: additive, order-sensitive, overwrites in between
-		p.Cols = []ColDesc{{"a", "int", []string{"add", "affine"}[r.Intn(2)], []string{"int", "int32", "int64", "uint64", "float64", "record"}[r.Intn(6)]},
+		p.Cols = []ColDesc{{"a", "int", []string{"add", "affine", "sat", "replace"}[r.Intn(4)], []string{"int", "int32", "int64", "uint64", "float64", "record", "int16", "uint16"}[r.Intn(8)]},
 			{"s", "str", "concat", "string"}}
 		p.PMerge, p.PInsert, p.PDelete = 0.85, 0.05, 0.05
 		p.Writers = 2 + r.Intn(3)
